@@ -115,11 +115,13 @@ const (
 	OpAddOrphanPod // somebody creates an unowned pod named S-<a> whose labels match the selector
 	OpOrphanPod    // the owner references of pod a are stripped (orphaning delete of a previous owner, manual edit)
 	OpClaimTerminating // claim a gets a deletion timestamp and is held by the pvc-protection finalizer (somebody deleted it while in use)
+	OpEditSlotsRaw     // the user writes a delete-slots value that is not a list of int32: it denotes no slots
+	OpRelabelPod       // pod a is relabelled by hand so that it stops matching the selector (or matches again); its owner reference stays
 	numOpKinds
 )
 
 var opNames = [...]string{"reconcile", "kubelet", "refreshAll", "refreshPod", "refreshSet", "editReplicas", "slotAdd", "slotRemove",
-	"editTemplate", "editPartition", "editMeta", "userDeletePod", "settle", "scaleInAt", "pause", "markDeleting", "restart", "editLimit", "editStrategy", "setRecreate", "setRemove", "addOrphanPod", "orphanPod", "claimTerminating"}
+	"editTemplate", "editPartition", "editMeta", "userDeletePod", "settle", "scaleInAt", "pause", "markDeleting", "restart", "editLimit", "editStrategy", "setRecreate", "setRemove", "addOrphanPod", "orphanPod", "claimTerminating", "editSlotsRaw", "relabelPod"}
 
 // Fault kinds for a reconcile op
 const (
@@ -760,6 +762,29 @@ func (s *Sys) envOp(k, a, b int) {
 				s.logf("somebody creates unowned pod %s", name)
 			}
 		}
+	case OpRelabelPod:
+		if p := s.pickPod(a); p != nil {
+			if p.Labels == nil {
+				p.Labels = map[string]string{}
+			}
+			if p.Labels["app"] == s.Name {
+				p.Labels["app"] = "relabelled"
+			} else {
+				p.Labels["app"] = s.Name
+			}
+			c.Put(p)
+			s.logf("user: pod %s relabelled app=%s", p.Name, p.Labels["app"])
+		}
+	case OpEditSlotsRaw:
+		vals := []string{`[5,"6"]`, `[7,2.5]`, `[1,4294967296]`, `invalid`, `[1,`, `{"a":1}`, `[0,[2]]`, `[2,true]`, `[1] [2]`, `[3,-2147483649]`, `"[1]"`, `[1e0]`}
+		val := vals[abs(a)%len(vals)]
+		c.UpdateSet(NS, s.Name, func(x *asv1.StatefulSet) {
+			if x.Annotations == nil {
+				x.Annotations = map[string]string{}
+			}
+			x.Annotations[helper.DeleteSlotsAnn] = val
+		})
+		s.logf("user: delete-slots=%s (not a list of int32: no slots)", val)
 	case OpClaimTerminating:
 		if claims := c.PVCs(); len(claims) > 0 {
 			pvc := claims[abs(a)%len(claims)]
@@ -1106,7 +1131,7 @@ func genOps(rt *rapid.T, maxOps int, w opWeights, faults, interference bool) []O
 var defaultWeights = opWeights{
 	OpReconcile: 10, OpKubelet: 8, OpRefreshAll: 1, OpRefreshPod: 2, OpRefreshSet: 1, OpEditReplicas: 2, OpEditSlotAdd: 2,
 	OpEditSlotRemove: 1, OpEditTemplate: 2, OpEditPartition: 1, OpEditMeta: 1, OpUserDeletePod: 1, OpSettle: 2, OpScaleInAt: 2,
-	OpAddOrphanPod: 1, OpOrphanPod: 1,
+	OpAddOrphanPod: 1, OpOrphanPod: 1, OpEditSlotsRaw: 1,
 }
 
 func summarizeWorld(w World) map[string]interface{} {
